@@ -180,7 +180,7 @@ fn batch_counter() -> BoxedStrategy<u64> {
     .boxed()
 }
 
-fn strategy(_tier: Tier) -> BoxedStrategy<KCase> {
+pub fn strategy(_tier: Tier) -> BoxedStrategy<KCase> {
     let compress = (cv_strategy(), 0u8..4, any::<u64>(), prop_oneof![3 => 0u8..=64, 1 => Just(64u8), 1 => Just(0u8)], gen::counter_lattice(), any::<u8>(), 0u8..64)
         .prop_map(|(cv, block_kind, block_seed, block_len, counter, flags, align)| KCase::Compress { cv, block_kind, block_seed, block_len, counter, flags, align });
     let hash_many = (
